@@ -62,7 +62,7 @@ class Model:
 
 def log_axioms(x, out):
     # monotone, bounded stub of log on [1e-50 + 1e-300, 1 + 1e-300]
-    return [z3.And(out.z >= z3.Q(-1152, 10), out.z <= z3.Q(1, 10 ** 200))]
+    return [z3.And(out.z >= z3.Q(-1152, 10), out.z <= z3.Q(691, 100))]
 
 
 class C09(Check):
@@ -70,10 +70,10 @@ class C09(Check):
     title = 'Hidden-Markov decoding returns a maximum-likelihood state sequence'
     functions = ['dynamics.HMM.estimate', 'dynamics.HMM.Qlog', 'dynamics.HMM.Plog', 'Track.setObsAnalyticalFeature']
     stubs = ['dynamics.math rebound: math.log of a symbolic argument is an uninterpreted function realised by memoisation (same term => same variable), '
-             'bounded by log(1e-50) <= log(x) <= 1e-200 and pairwise monotone over the arguments met on the path; math.log of a constant is the real math.log',
+             'bounded by log(1e-50) <= log(x) <= log(1000) + 0.01 and pairwise monotone over the arguments met on the path; math.log of a constant is the real math.log',
              'np.argmin on the list of proxies runs for real (object array, comparisons fork)']
-    assumptions = ['log mode: every observation / transition log-likelihood is a symbolic real in [-100, 0]',
-                   'likelihood mode: every likelihood is either exactly 0 or a symbolic real in [1e-50, 1]; the decoded sequence is proved to minimise the sum of the '
+    assumptions = ['log mode: every observation / transition log-likelihood is a symbolic real in [-100, 100] (unnormalised models: positive logs allowed)',
+                   'likelihood mode: every likelihood is either exactly 0 or a symbolic real in [1e-50, 1000] (unnormalised: likelihoods above 1 allowed); the decoded sequence is proved to minimise the sum of the '
                    '-log(p + 1e-300) terms the code forms (log uninterpreted + monotone), which is the maximum-likelihood sequence under the true logarithm up to the 1e-300 regulariser; '
                    'for a single epoch (one factor) the product criterion itself is proved (chosen likelihood >= every other)',
                    'states are distinct per epoch; the model tables are time dependent, and a query of Q or P with an epoch argument that does not match its states is a violation']
@@ -111,13 +111,13 @@ class C09(Check):
                 v = inp[name]
                 return float(v)
             if job['mode'] == 'log':
-                return eng.real(name, -100, 0)
+                return eng.real(name, -100, 100)
             if eng.branch(z3.Bool(name + '?zero')):
                 eng.inputs[name] = 0.0
                 if name not in eng.input_order:
                     eng.input_order.append(name)
                 return 0.0
-            return eng.real(name, 1e-50, 1)
+            return eng.real(name, 1e-50, 1000)
         lp = [[val('p%d_%d' % (k, l)) for l in range(S[k])] for k in range(T)]
         lq = [[[val('q%d_%d_%d' % (k, m, l)) for l in range(S[k + 1])] for m in range(S[k])] for k in range(T - 1)]
         return lp, lq
